@@ -233,6 +233,12 @@ impl Expr {
         match self {
             Expr::Value(val) => val.for_type(flags),
             Expr::BinOp { lhs, op, rhs } => {
+                if let (Op::Unwrap, Expr::Value(Value::Ident(ident))) = (op, lhs.as_ref()) {
+                    if ident.is_const() {
+                        bail!("cannot store into {} using ?=, because it is const", ident.name())
+                    }
+                }
+
                 let lhs = if op.is_op_assign() {
                     match lhs.as_ref() {
                         Expr::Value(Value::Ident(ident)) => {
